@@ -31,7 +31,9 @@ type Timer struct {
 }
 
 func AfterFunc(d Duration, f func()) *Timer {
-	return &Timer{ts: vsched.NewTimer(f)}
+	t := &Timer{ts: vsched.NewTimer(f)}
+	vsched.NoteTimerDur(int64(d))
+	return t
 }
 
 func (t *Timer) Stop() bool {
@@ -41,7 +43,9 @@ func (t *Timer) Stop() bool {
 
 func NewTimer(d Duration) *Timer {
 	ch := make(chan Time, 1)
-	return &Timer{C: ch, ts: vsched.NewTimer(func() { vsched.Send(ch, Time{}) })}
+	t := &Timer{C: ch, ts: vsched.NewTimer(func() { vsched.Send(ch, Time{}) })}
+	vsched.NoteTimerDur(int64(d))
+	return t
 }
 
 func After(d Duration) <-chan Time { return NewTimer(d).C }
